@@ -6,7 +6,8 @@ HERE = os.path.dirname(os.path.abspath(__file__))
 VERIF = os.path.dirname(HERE)
 patch, msg = os.path.abspath(sys.argv[1]), sys.argv[2]
 assert msg.startswith("fix:")
-with open(os.path.join(VERIF, ".cache", "repo.lock"), "w") as lk:
+with open(os.path.join(VERIF, ".cache", "gate.lock"), "w") as gate, open(os.path.join(VERIF, ".cache", "repo.lock"), "w") as lk:
+    fcntl.flock(gate, fcntl.LOCK_EX)
     fcntl.flock(lk, fcntl.LOCK_EX)
     st = subprocess.run(["git", "-C", "/repo", "status", "--porcelain", "--untracked-files=no"], capture_output=True, text=True).stdout.strip()
     if st:
